@@ -384,6 +384,14 @@ func (ms *Modules) Process() []error {
 	// the errors.
 	for _, m := range mods {
 		ToEntry(m).Augment(true)
+	}
+	// Applying an augment can itself fail (the target may already have a
+	// child of that name); such errors are recorded on the target, which
+	// may be in any module.
+	for _, m := range ms.Modules {
+		errs = append(errs, ToEntry(m).GetErrors()...)
+	}
+	for _, m := range ms.SubModules {
 		errs = append(errs, ToEntry(m).GetErrors()...)
 	}
 
